@@ -433,6 +433,17 @@ func (ex *Exec) valEq(st *State, a, b Value, t types.Type) *Term {
 		if x.Lib && y.ID.IsConstInt() && ex.repoSentinel[y.ID.I.Int64()] || y.Lib && x.ID.IsConstInt() && ex.repoSentinel[x.ID.I.Int64()] {
 			return TFalse
 		}
+		// an error made by one external library is never a sentinel error variable of another one
+		foreign := func(a, b *IfaceV) bool {
+			if !a.Lib || a.Origin == "" || !b.ID.IsConstInt() {
+				return false
+			}
+			sp, ok := ex.sentinelPkg[b.ID.I.Int64()]
+			return ok && sp != a.Origin
+		}
+		if foreign(x, y) || foreign(y, x) {
+			return TFalse
+		}
 		return Eq(x.ID, y.ID)
 	case *SliceV:
 		// Go only allows comparison with nil; specs compare slice headers
